@@ -25,6 +25,14 @@ pub fn exec(op: &str, a: &[u64]) -> Result<Outcome, String> {
     let sa = r.string()?;
     let sb = r.string()?;
     let lower = r.opt(|r| Ok((r.text()?, r.text()?)))?;
+    // the observation recorded by the generating run is for the model (any longest increasing matching is an
+    // admissible answer); this run's answer is judged by the oracle below
+    let _m = r.list(|r| Ok((r.nat()?, r.nat()?)))?;
+    if op == "matchw" {
+        let _ = (r.nat()?, r.nat()?);
+    } else {
+        let _ = (r.nats()?, r.nats()?);
+    }
     r.end()?;
     let ic = lower.is_some();
     let ka = keys(&sa, ic);
@@ -38,14 +46,7 @@ pub fn exec(op: &str, a: &[u64]) -> Result<Outcome, String> {
     match op {
         "matchw" => {
             let (m, al, bl) = match_words(&sa, &sb, ic);
-            let mut v = vec![m.len() as u64];
-            for (i, j) in &m {
-                v.push(*i as u64);
-                v.push(*j as u64);
-            }
-            v.push(al as u64);
-            v.push(bl as u64);
-            let mut o = Outcome::new(ok(v));
+            let mut o = Outcome::new("accept".to_string());
             o.check(al == ka.len() && bl == kb.len(), "word counts != numbers of whitespace-separated words");
             o.check(m.windows(2).all(|w| w[0].0 < w[1].0 && w[0].1 < w[1].1), "pairs not strictly increasing in both coordinates");
             o.check(m.iter().all(|&(i, j)| i < ka.len() && j < kb.len() && ka[i] == kb[j]), "matched words differ");
@@ -62,10 +63,7 @@ pub fn exec(op: &str, a: &[u64]) -> Result<Outcome, String> {
             ea.sort();
             eb.sort();
             let (m, al, bl) = match_words(&sa, &sb, false);
-            let mut v = vec![];
-            enc_nats(&mut v, ea.iter().copied());
-            enc_nats(&mut v, eb.iter().copied());
-            let mut o = Outcome::new(ok(v));
+            let mut o = Outcome::new("accept".to_string());
             let wa: Vec<u64> = (0..al as u64).filter(|i| !m.iter().any(|p| p.0 as u64 == *i)).collect();
             let wb: Vec<u64> = (0..bl as u64).filter(|j| !m.iter().any(|p| p.1 as u64 == *j)).collect();
             o.check(ea == wa && eb == wb, "edited_words != complement of the matching");
@@ -91,6 +89,38 @@ fn req(a: &str, b: &str, ic: bool) -> Vec<u64> {
     } else {
         v.push(0);
     }
+    v
+}
+
+/// request + the observation of this (generating) run
+fn req_matchw(a: &str, b: &str, ic: bool) -> Vec<u64> {
+    let mut v = req(a, b, ic);
+    let (m, al, bl) = std::panic::catch_unwind(|| match_words(a, b, ic)).unwrap_or_default();
+    v.push(m.len() as u64);
+    for (i, j) in &m {
+        v.push(*i as u64);
+        v.push(*j as u64);
+    }
+    v.push(al as u64);
+    v.push(bl as u64);
+    v
+}
+
+fn req_editedw(a: &str, b: &str) -> Vec<u64> {
+    let mut v = req(a, b, false);
+    let (m, _, _) = std::panic::catch_unwind(|| match_words(a, b, false)).unwrap_or_default();
+    v.push(m.len() as u64);
+    for (i, j) in &m {
+        v.push(*i as u64);
+        v.push(*j as u64);
+    }
+    let (ea, eb) = std::panic::catch_unwind(|| edited_words(a, b)).unwrap_or_default();
+    let mut ea: Vec<u64> = ea.into_iter().map(|x| x as u64).collect();
+    let mut eb: Vec<u64> = eb.into_iter().map(|x| x as u64).collect();
+    ea.sort();
+    eb.sort();
+    enc_nats(&mut v, ea);
+    enc_nats(&mut v, eb);
     v
 }
 
@@ -121,9 +151,9 @@ pub fn run_c18(ctx: &mut Ctx) {
     if ctx.first_shard() {
         for (a, b) in [("", ""), ("a", ""), ("", "a"), ("a b c", "b x c"), ("a a a", "a a"), ("A b", "a B"), ("a\u{b}b", "a b"), ("a\u{a0}b", "a b"), ("\u{dc}ber den Wolken", "\u{fc}ber den wolken"), ("\u{3a3}\u{391}\u{3a3} x", "\u{3c3}\u{3b1}\u{3c2} X")] {
             for ic in [false, true] {
-                ctx.case("matchw", &req(a, b, ic));
+                ctx.case("matchw", &req_matchw(a, b, ic));
             }
-            ctx.case("editedw", &req(a, b, false));
+            ctx.case("editedw", &req_editedw(a, b));
         }
     }
     if ctx.thorough && ctx.first_shard() {
@@ -147,9 +177,9 @@ pub fn run_c18(ctx: &mut Ctx) {
             for b in &seqs {
                 let (sa, sb) = (a.join(" "), b.join(" "));
                 for ic in [false, true] {
-                    ctx.case("matchw", &req(&sa, &sb, ic));
+                    ctx.case("matchw", &req_matchw(&sa, &sb, ic));
                 }
-                ctx.case("editedw", &req(&sa, &sb, false));
+                ctx.case("editedw", &req_editedw(&sa, &sb));
             }
         }
     }
@@ -159,9 +189,9 @@ pub fn run_c18(ctx: &mut Ctx) {
         let a = text(ctx, if i % 10 == 0 { 12 } else { 6 }, vocab);
         let b = text(ctx, if i % 10 == 0 { 12 } else { 6 }, vocab);
         let ic = ctx.rng.random_bool(0.5);
-        ctx.case("matchw", &req(&a, &b, ic));
+        ctx.case("matchw", &req_matchw(&a, &b, ic));
         if i % 2 == 0 {
-            ctx.case("editedw", &req(&a, &b, false));
+            ctx.case("editedw", &req_editedw(&a, &b));
         }
     }
 }
